@@ -145,7 +145,7 @@ def run(sc, tier, replay):
         shards = [(o["seed"], o["runs"], o["features"])]
     else:
         nsh = 14
-        runs_per = 700 if thorough else 60
+        runs_per = 4000 if thorough else 60
         shards = [(vlib.seed() * 1000 + k, runs_per, CORE + (",abstract" if (thorough and k % 7 == 6) else "") + (",oddids,richargs" if k % 2 else "")) for k in range(nsh)]
         # the pinned shard of the recorded finding C17-K1 (interface / union typed selections)
         shards.append((1006, 200, CORE + ",abstract"))
